@@ -211,6 +211,9 @@ def gen_word(r, prevword=None, big=False):
         t = gen_text(r, ("alpha", "alnum", "digits", "dash", "dot", "alnum"))
         if r.chance(1, 6):
             t += bytes(r.choice(b"0123456789") for _ in range(r.range(7, 10)))  # around MAX_HOST_SUFFIX
+        elif r.chance(1, 12) and t and not t[-1:].isdigit():
+            # numbers that only differ from small ones above bit 31 / 32 / 63: still names of their own
+            t += r.choice([b"2147483649", b"4294967296", b"4294967297", b"4294967299", b"8589934593", b"9223372036854775809", b"18446744073709551617"])
         return ("plain", t)
     p = gen_text(r, ("alpha", "alpha", "alnum", "digits", "empty", "dash"))
     rs = gen_ranges(r, big=big)
